@@ -221,25 +221,38 @@ TECHNIQUE = (
     "grammar rule shape) + end-to-end differential matrix through the real Execer with tagged data on every stream"
 )
 LEVEL_TEXT = (
-    "proof (partial where the code deviates): the redirect tables of procs/specs.py, the whole language of _REDIR_REGEX, the tokenizer's "
-    "spelling lists and the shape of the grammar rule are translated from /repo on every run. Theorems over the model of "
-    "_parse_redirects / _redirect_streams / the single-assignment slots / the pipe wiring of cmds_to_specs / _make_last_spec_captured / "
-    "the handle choice of Popen, ProcProxyThread and ProcProxy / CommandPipeline's delivery of the capture channels: every one of the "
-    "tokenizable spellings decodes to its documented meaning and to the mode w for `>` and a for `>>` (decide over the whole table); a "
-    "second claim on a stream is an error for EVERY redirect list (induction); for EVERY pipeline (any number of stages, any redirect "
-    "lists, stage kinds, capture forms, $THREAD_SUBPROCS / $XONSH_CAPTURE_ALWAYS / $XONSH_SUBPROC_CAPTURED_PRINT_STDERR, target states) "
-    "the model with the seven deviations repaired routes exactly as documented, and today's model does so outside the seven deviation "
-    "regions (partial); each deviation has a Lean counterexample that is replayed on the real code (known findings). "
-    "Tie: every spelling typed as source text through the real Execer on every stage kind / position / capture form / target state, "
-    "each stage writing O<i>/E<i>; target files, every stage's stdin, the capture and the check's own fds 0/1/2 are compared with the "
-    "model AND with the documented routing."
+    "proof: the redirect tables of procs/specs.py, the whole 2352-word language of _REDIR_REGEX with its groups, the tokenizer's "
+    "spelling lists, the lexer's plain `<` `>` `>>` and the shape of the grammar rule are translated from /repo on every run. "
+    "HEADLINE — C07_route: for EVERY pipeline (any number of stages of any kind, any redirect lists written with any tokenizable "
+    "spelling, any capture form, any $THREAD_SUBPROCS / $XONSH_CAPTURE_ALWAYS / $XONSH_SUBPROC_CAPTURED_PRINT_STDERR, any target "
+    "states) the model of the code as it is now (_parse_redirects / _redirect_streams / the single-assignment slots / the pipe wiring "
+    "of cmds_to_specs / _update_last_spec + _make_last_spec_captured / the handle choice of Popen, ProcProxyThread and ProcProxy / "
+    "CommandPipeline's delivery of the capture channels) raises exactly when the documentation says error and otherwise delivers "
+    "every stage's stdin, stdout, stderr and opens every file exactly as documented (refinement of the three passes of cmds_to_specs "
+    "to a stage-by-stage function, one stage by exhaustive case analysis, the pipeline by induction on the stage list). With it: every "
+    "one of the tokenizable spellings is a documented operator and the tables decode it to exactly that operator, all spellings of an "
+    "operator decode identically, every spelling the tutorial names is tokenizable, `>` opens with w and `>>` with a, only merge/pipe "
+    "tokens stand without a target (decide over the whole tables); for EVERY redirect list resolve_redirects succeeds iff all "
+    "redirects are well formed and no stream is claimed twice (induction). The pinned snapshot deviated from the documentation in "
+    "seven ways, all repaired in /repo (ce03276 55d432e c8fac0d 58fc858 e44af9d 6c98380 0a66bfd): C07_cex_* record what the snapshot "
+    "did on each witness, C07_route_partial that it was right outside the seven regions; the seven witnesses are replayed on every run "
+    "as FIXED witnesses (a recurrence is a VIOLATION). Tie: every spelling typed as source text through the real Execer on every stage "
+    "kind / position / capture form / target state, each stage recording its stdin and writing O<i>/E<i>; target files, stage stdins, "
+    "the capture and the check's own fds 0/1/2 are compared with the model AND with the documented routing; every word of the regex "
+    "language through the real decoder; the real lexer on every spelling and on the non-tokenizable words."
 )
 LEVEL_NOTE = (
     "Trusted: Lean kernel + standard axioms; translator/c07.py; the harness. Modelled, not verified: CPython's open()/subprocess fd "
     "inheritance, OS pipes, PLY and the grammar actions (the spellings are typed as source, so they are exercised but not modelled), "
-    "ProcProxyThread._get_handles at the level of 'which handle', threads and timing (an observation that does not reproduce 3/3 is "
-    "counted as nondeterministic, not as a routing failure: completeness under races belongs to C06). `o>e` together with `e>o` in one "
-    "command is not specified by the documentation and is excluded; background `&` is not exercised."
+    "threads and timing (an observation that does not reproduce 3/3 is counted as nondeterministic, not as a routing failure: "
+    "completeness under races belongs to C06). The theorem about malformed operators (C07_malformed_rejected) is over the ROWS of the "
+    "translated regex table; that the table lookup of a word finds that word's row (no duplicate words) is the translator's "
+    "sorted(set()) and is exercised, not proved. The decoder accepts 212 undocumented strings (`X>&N`, `&N>Y`) when called "
+    "programmatically; none is tokenizable (theorem) and the real lexer never emits one as a token (lexer stream): a remark, not a "
+    "finding. `o>e` together with `e>o` in one command is not specified by the documentation and is excluded; background `&` is not "
+    "exercised. The seven deviations stay switchable in the model (Quirks): the check asks the implementation which ones it has "
+    "(witness replay) and runs the model with those, so a regression of one repair shows as a VIOLATION under that finding's key with "
+    "the correspondence still exact; validated against trees with each repair alone, several subsets, all seven, and none."
 )
 
 QUIRKS = [
@@ -328,7 +341,12 @@ class Pool:
     """a few workers; cells are run in order, round-robin, one outstanding cell per worker"""
 
     def __init__(self, n):
-        self.ws = [Worker() for _ in range(n)]
+        # the first interpreter imports xonsh ALONE (and answers one no-op cell) before the others start: a tree without its generated
+        # parser tables writes them on first import, and several interpreters doing that at once corrupt the file
+        first = Worker()
+        first.send({"src": "pass", "files": {}})
+        first.recv(timeout=120)
+        self.ws = [first] + [Worker() for _ in range(n - 1)]
 
     def run_many(self, wire_cells):
         out = [None] * len(wire_cells)
@@ -940,9 +958,16 @@ def detect_quirks(ctx, pool):
         fails_spec = "infra" in obs or (so is not None and compare(cell, obs, so, "the documentation") is not None)
         matches_on = "infra" not in obs and compare(cell, obs, model_outcome(a_on), "m") is None
         quirks[k] = bool(fails_spec)
-        ctx.replayed(f["key"], fails_spec, {"source": cell_source(cell), "observed": obs.get("where"), "raised": obs.get("exc"), "as_the_deviating_model_predicts": matches_on})
-        if fails_spec and f.get("status") == "open":
-            ctx.spec_failure({"stream": "known-witness", **describe(cell)}, {"where": obs.get("where"), "raised": obs.get("exc")}, f["what"], f["key"] if matches_on else None)
+        ctx.replayed(f["key"], fails_spec, {"source": cell_source(cell), "status": f.get("status"), "observed": obs.get("where"), "raised": obs.get("exc"), "as_the_deviating_model_predicts": matches_on})
+        if fails_spec:
+            # an OPEN finding: known.  A FIXED finding whose witness fails again: its key is no longer open, so Ctx.finish reports a
+            # VIOLATION under that key (the repair regressed)
+            ctx.spec_failure({"stream": "known-witness" if f.get("status") == "open" else "fixed-witness", **describe(cell)},
+                             {"where": obs.get("where"), "raised": obs.get("exc")},
+                             f["what"] if f.get("status") == "open" else f"the witness of the repaired finding ({f.get('status')}) fails again: " + f["what"],
+                             f["key"] if matches_on else None)
+        elif str(f.get("status", "")).startswith("fixed"):
+            ctx.count("fixed-witness-routed-as-documented")
     ctx.extra["deviations_present"] = {QUIRKS[i]: quirks[i] for i in range(7)}
     return quirks
 
@@ -1058,11 +1083,12 @@ def run(ctx):
         "an observation that does not reproduce in 3 of 3 runs is not a routing failure (counted as nondeterministic-observation)",
     ]
     ctx.explanation = (
-        "Gen/Redir.lean is regenerated from /repo every run (decoder tables, the 2352-word language of _REDIR_REGEX, tokenizer spellings, "
-        "grammar rule shape); Model/Redir.lean models decoding, slots, pipe wiring, capture-kind stream choice, per-executor handle choice and "
-        "delivery, with the seven deviations switchable; Props/C07.lean proves the spelling table, the conflict rule, mode w/a, and routing = "
-        "documentation for all pipelines (repaired model; today's model outside the deviation regions) plus one counterexample per deviation. "
-        "The tie types every spelling as source through the real Execer in a child whose own fds are the terminal."
+        "Gen/Redir.lean is regenerated from /repo every run (decoder tables, the 2352-word language of _REDIR_REGEX with its groups, tokenizer "
+        "spellings, lexer operators, grammar rule shape); Model/Redir.lean models decoding, slots, pipe wiring, capture-kind stream choice, "
+        "per-executor handle choice and delivery, with the seven deviations switchable, and states the documented routing (specRoute); "
+        "Lemmas/Redir*.lean + Props/C07.lean prove the spelling table, the conflict rule, mode w/a, routing = documentation for all pipelines "
+        "(the code as it is now, all seven deviations repaired: C07_route; the pinned snapshot outside the deviation regions: C07_route_partial) and the snapshot's behaviour on each witness (C07_cex_*). "
+        "The tie types every spelling as source through the real Execer in a forked child (one per cell) whose own fds are the terminal."
     )
     if D is None or not D.get("regex"):
         ctx.translator_errors.append("no tables: the redirect tables could not be read from the working tree")
